@@ -62,8 +62,8 @@ impl Property for C06 {
     }
     fn runs(&self, tier: Tier) -> u64 {
         match tier {
-            Tier::Quick => 60000,
-            Tier::Thorough => 600000,
+            Tier::Quick => 400000,
+            Tier::Thorough => 4000000,
         }
     }
     fn rule(&self) -> &'static str {
